@@ -3,6 +3,7 @@ package main
 import (
 	"fmt"
 	"go/ast"
+	"go/token"
 	"go/types"
 	"strings"
 
@@ -115,7 +116,7 @@ func checkClTypeArgQualifier(c *Ctx, rule string, cp *packages.Package) {
 // checkImplementsFullTable (R07.7): an interface may contain unexported methods; the run-time check that a
 // concrete type implements it must scan the type's complete method table.
 func checkImplementsFullTable(c *Ctx, rp *packages.Package) {
-	c.Rule("R07.7", "runtime.Implements scans the complete method table of the concrete type (exported and unexported methods)", 1)
+	c.Rule("R07.7", "runtime.Implements scans the complete method table of the concrete type (exported and unexported methods) and rejects a nil dynamic type first", 2)
 	fd := findFunc(rp, "Implements")
 	if fd == nil {
 		c.Undecided("R07.7", "runtime.Implements", 0, "function not found")
@@ -136,6 +137,27 @@ func checkImplementsFullTable(c *Ctx, rp *packages.Package) {
 			prefix = true
 		}
 	}
+	// a nil dynamic type implements nothing - not even the empty interface: x.(any) on a nil interface panics
+	g := buildCFG(rp, fd)
+	isNilGuard := func(n ast.Node) bool {
+		e, ok := n.(ast.Expr)
+		if !ok {
+			return false
+		}
+		x, y, op, isCmp := binCmp(e)
+		return isCmp && op == token.EQL && exprStr(x) == "V" && isNilIdent(info, y)
+	}
+	retTrue := func(n ast.Node) bool {
+		r, ok := n.(*ast.ReturnStmt)
+		if !ok || len(r.Results) != 1 {
+			return false
+		}
+		bv, isC := constBool(info, r.Results[0])
+		return isC && bv
+	}
+	hit, reached := g.reach(g.entry(), isNilGuard, retTrue, false, nil)
+	c.Check(!reached, "R07.7", "runtime.Implements rejects a nil dynamic type before anything else", fd.Pos(), "V == nil is tested on every path to `return true`",
+		"`return true` ("+c.posStr(posOf(hit))+") is reachable without testing V == nil: a nil interface value asserted to an empty interface type succeeds instead of panicking")
 	bound := strings.Contains(strings.ReplaceAll(srcOf(fd.Body), " ", ""), "int(v.Mcount)") || strings.Contains(strings.ReplaceAll(srcOf(fd.Body), " ", ""), "len(vmethods)")
 	c.Check(full && !prefix && bound, "R07.7", "runtime.Implements scans all methods of the concrete type", fd.Pos(), "UncommonType.Methods(), Mcount entries",
 		"the concrete type's methods are taken from ExportedMethods (or the scan is bounded by Xcount): an interface with an unexported method is reported as not implemented, so x.(ast.Expr) fails for *ast.Ident at run time although the static conversion works")
